@@ -216,6 +216,34 @@ def gen_derived_join_case(rnd):
     return c
 
 
+def gen_same_text_aggregate_case(rnd):
+    """ungrouped aggregates with the SAME text in two stages of one statement (CTE body / derived table and the query reading it,
+    two sibling CTEs): each stage computes its own — whatever is memoised per query must not be shared between stages"""
+    doc = gen_doc(rnd)
+    fn = rnd.choice(["count", "sum", "max", "min"])
+    agg = ["aggr", fn, [] if fn == "count" else [col("n0")]]
+    w1 = ["cmp", rnd.choice(["gt", "ge", "ne"]), col("n0"), num(rnd.choice([1, 2, 3]))]
+    w2 = ["cmp", rnd.choice(["gt", "le"]), col("n0"), num(rnd.choice([2, 3]))]
+    shape = rnd.choice(["cte", "derived", "siblings"])
+    if shape == "cte":
+        inner = select([item(agg, "n0")], table("t"), wh=w1)
+        outer = select([item(agg, "m")], table("c"), ctes=[["c", inner]])
+        c = mk_case(doc, outer, mode="seq", tag="same-text-aggregate:cte")
+        c["staged"] = [("c", inner)]
+        c["outer_plain"] = outer
+    elif shape == "derived":
+        inner = select([item(agg, "n0")], table("t"), wh=w1)
+        outer = select([item(["aggr", fn, [] if fn == "count" else [col("d", "n0")]], "m")], ["derived", inner, "d"])
+        c = mk_case(doc, outer, mode="seq", tag="same-text-aggregate:derived")
+        c["derived"] = inner
+    else:
+        a = select([item(agg, "s")], table("t"), wh=w1)
+        b = select([item(agg, "s")], table("t"), wh=w2)
+        outer = ["union", [["a", a], ["b", b]], select([item(col("s"))], table("a")), select([item(col("s"))], table("b")), False, [], None, None, {}]
+        c = mk_case(doc, outer, mode="seq", tag="same-text-aggregate:siblings")
+    return c
+
+
 def gen_subq_case(rnd):
     doc = gen_doc(rnd)
     k = rnd.random()
@@ -354,7 +382,8 @@ def explore(chk, rnd, tier):
         for _ in range(m):
             k = rnd.random()
             cases.append(gen_cte_case(rnd) if k < 0.27 else gen_cte_multi_case(rnd) if k < 0.40 else gen_cte_path_case(rnd) if k < 0.47 else
-                         gen_derived_case(rnd) if k < 0.60 else gen_derived_join_case(rnd) if k < 0.67 else gen_subq_case(rnd))
+                         gen_derived_case(rnd) if k < 0.58 else gen_derived_join_case(rnd) if k < 0.64 else
+                         gen_same_text_aggregate_case(rnd) if k < 0.69 else gen_subq_case(rnd))
         res = run_cases(chk, cases, nontrivial=nontrivial)
         metamorphic(chk, cases, res)
         done += m
